@@ -25,7 +25,10 @@ def prepare(repo_root, tag):
         if os.path.exists(dst):
             shutil.rmtree(dst)
         shutil.copytree(os.path.join(repo_root, d), dst)
-    shutil.copy(os.path.join(repo_root, "Cargo.lock"), os.path.join(work, "Cargo.lock"))
+    for cand in (os.path.join(repo_root, "Cargo.lock"), "/repo/Cargo.lock"):
+        if os.path.exists(cand):
+            shutil.copy(cand, os.path.join(work, "Cargo.lock"))
+            break
     with open(os.path.join(repo_root, "Cargo.toml")) as f:
         toml = f.read()
     # benches refer to files that are not copied
